@@ -470,6 +470,22 @@ impl RepositoryState {
     /// This is 1 since version 0 was in the main branch for quite some time.
     const VERSION: u8 = 1;
 
+    /// Forwards to the private `parse` for the verification harness.
+    #[cfg(feature = "verif-hooks")]
+    pub fn verif_parse(
+        reader: &mut impl io::Read
+    ) -> Result<Self, io::Error> {
+        Self::parse(reader)
+    }
+
+    /// Forwards to the private `compose` for the verification harness.
+    #[cfg(feature = "verif-hooks")]
+    pub fn verif_compose(
+        &self, writer: &mut impl io::Write
+    ) -> Result<(), io::Error> {
+        self.compose(writer)
+    }
+
     /// Reads the state from an IO reader.
     fn parse(reader: &mut impl io::Read) -> Result<Self, io::Error> {
         // Version number.
